@@ -1,14 +1,59 @@
 // C32: ConcurrentVector<Tracked, Traits> used sequentially vs std::vector<Tracked> vs the Lean model.
 // usage: c32_convec <seed> <sequences> <max ops>
+#include <algorithm>
+#include <atomic>
+#include <cassert>
+#include <climits>
+#include <cstdlib>
+#include <cstring>
+#include <initializer_list>
 #include <map>
 #include <memory>
+#include <stdexcept>
+#include <thread>
+#include <type_traits>
+#include <utility>
 #include <vector>
 #include <signal.h>
+#include <stdint.h>
+#include <stdlib.h>
 #include <unistd.h>
 #include "common.h"
+// Allocation log: dispenso's alignedMalloc/alignedFree (platform.h, inline) call ::malloc / ::free;
+// while the dispenso headers are read those two names are routed through the log below (all
+// standard headers dispenso needs are included above, so only dispenso's own calls are affected).
+namespace hk {
+struct Blk { char* raw; size_t bytes; };
+static std::vector<Blk> live;
+static std::vector<size_t> allBytes;   // byte counts of all blocks requested since the last reset
+static long long allocs = 0, frees = 0, badFrees = 0;
+static void reset() { allBytes.clear(); allocs = frees = badFrees = 0; }
+static const Blk* find(const void* p) {
+  for (auto& b : live) if ((const char*)p >= b.raw && (const char*)p < b.raw + b.bytes) return &b;
+  return nullptr;
+}
+}  // namespace hk
+static void* vhMalloc(size_t n) {
+  void* p = malloc(n);
+  hk::live.push_back({(char*)p, n}); hk::allBytes.push_back(n); ++hk::allocs;
+  return p;
+}
+static void vhFree(void* p) {
+  bool found = false;
+  for (size_t i = 0; i < hk::live.size(); ++i) if (hk::live[i].raw == (char*)p) { hk::live.erase(hk::live.begin() + (long)i); found = true; break; }
+  if (!found) { ++hk::badFrees; return; }   // not handed to free(): the run continues and reports
+  ++hk::frees;
+  free(p);
+}
+#define malloc(x) vhMalloc(x)
+#define free(x) vhFree(x)
 #define private public
+#define protected public
 #include <dispenso/concurrent_vector.h>
+#undef protected
 #undef private
+#undef malloc
+#undef free
 
 using vh::Tracked;
 using dispenso::ConcurrentVectorReallocStrategy;
@@ -16,7 +61,8 @@ static long long cases = 0;
 static char gLast[700] = "none";
 static void onAlarm(int) {
   char buf[900];
-  int k = std::snprintf(buf, sizeof buf, "PFAIL ConcurrentVector operation did not return (hang) | %s\nSTAT cases %lld\n", gLast, cases);
+  int k = std::snprintf(buf, sizeof buf, "\nPFAIL ConcurrentVector operation did not return (hang) | %s\nSTAT cases %lld\n", gLast, cases);
+  std::fflush(stdout);
   if (write(1, buf, (size_t)k)) {}
   _exit(0);
 }
@@ -38,6 +84,57 @@ struct BigTracked : vh::Tracked {
   BigTracked() : Tracked() {}
   BigTracked(int x) : Tracked(x) {}
 };
+// 64 bytes: kDefaultCapacity = 8, first bucket of 4 elements
+struct MidTracked : vh::Tracked {
+  char pad[56];
+  MidTracked() : Tracked() {}
+  MidTracked(int x) : Tracked(x) {}
+};
+struct TraitsC {
+  static constexpr bool kPreferBuffersInline = false;
+  static constexpr ConcurrentVectorReallocStrategy kReallocStrategy = ConcurrentVectorReallocStrategy::kAsNeeded;
+  static constexpr bool kIteratorPreferSpeed = true;
+};
+
+template <typename V> struct TraitsOf;
+template <typename T, typename Tr, typename S> struct TraitsOf<dispenso::ConcurrentVector<T, Tr, S>> { using type = Tr; };
+
+// White-box observation of one vector for the allocation model (`cvalloc`): firstBucketShift_, size,
+// capacity(), which buffers_[b] are non-null, the shouldDealloc_ flags, which bucket pointers are
+// the start of a live malloc block; plus the allocation log totals.  Also the storage oracle:
+// every non-null bucket lies inside one live block and no two buckets overlap.
+template <typename CV, typename E>
+static std::string observe(CV& d, bool& storageBad) {
+  unsigned long long bufs = 0, flags = 0, starts = 0;
+  const size_t A = std::max(alignof(E), sizeof(uintptr_t));
+  std::vector<std::pair<const char*, const char*>> regs;
+  for (size_t b = 0; b < CV::kMaxBuffers; ++b) {
+    E* p = d.buffers_[b].load(std::memory_order_relaxed);
+    if (d.buffers_.shouldDealloc(b)) flags |= 1ull << b;
+    if (!p) continue;
+    bufs |= 1ull << b;
+    size_t cap = b == 0 ? d.firstBucketLen_ : d.firstBucketLen_ << (b - 1);
+    const hk::Blk* blk = hk::find(p);
+    const char* lo = (const char*)p; const char* hi = lo + cap * sizeof(E);
+    if (!blk || hi > blk->raw + blk->bytes) storageBad = true;
+    else if (b >= 2 && (size_t)(lo - blk->raw) <= A) starts |= 1ull << b;
+    for (auto& r : regs) if (lo < r.second && r.first < hi) storageBad = true;
+    regs.push_back({lo, hi});
+  }
+  char buf[300];
+  std::snprintf(buf, sizeof buf, "%zu %zu %zu %llu %llu %llu", d.firstBucketShift_, d.size(), d.capacity(), bufs, flags, starts);
+  return buf;
+}
+template <typename CV, typename E>
+static std::string totals() {
+  const size_t A = std::max(alignof(E), sizeof(uintptr_t));
+  const size_t tableBytes = CV::kMaxBuffers * sizeof(dispenso::detail::AlignedAtomic<E>) + alignof(dispenso::detail::AlignedAtomic<E>);
+  unsigned long long elems = 0;
+  for (size_t by : hk::allBytes) if (!(by == tableBytes && !std::is_array<decltype(CV::buffers_.buffers_)>::value)) elems += (by - A) / sizeof(E);
+  char buf[200];
+  std::snprintf(buf, sizeof buf, "| %lld %lld %llu 0 %lld", hk::allocs, hk::frees, elems, hk::badFrees);
+  return buf;
+}
 
 template <typename E>
 static std::string lst(const std::vector<E>& v) { std::string s; for (auto& e : v) s += " " + std::to_string(e.v); return s; }
@@ -75,6 +172,16 @@ template <typename CV, typename Tracked>
 static void sequence(vh::SplitMix& rng, int maxOps, long long it, const char* traitName) {
   using RV = std::vector<Tracked>;
   std::printf("Q convec reset => ok\n");
+  constexpr bool kTable = !std::is_array<decltype(CV::buffers_.buffers_)>::value;
+  {
+    CV probe;
+    int strat = (int)TraitsOf<CV>::type::kReallocStrategy;
+    std::printf("Q cvalloc reset %d %zu %zu %d => ok\n", strat, probe.firstBucketShift_, (size_t)CV::kMaxBuffers, kTable ? 1 : 0);
+  }
+  hk::reset();
+  size_t liveBlocksBase = hk::live.size();
+  bool storageBad = false; std::string storageAt;
+  int forceGrow = 0, forceTarget = -1; size_t forceLeft = 0;
   struct Slot { std::unique_ptr<CV> p; std::unique_ptr<RV> ref; };
   std::map<int, Slot> objs;
   int next = 0;
@@ -87,19 +194,34 @@ static void sequence(vh::SplitMix& rng, int maxOps, long long it, const char* tr
   for (int k = 0; k < nops + 1000; ++k) {
     bool finishing = k >= nops;
     if (finishing && objs.empty()) break;
-    int kind = finishing ? 28 : (int)rng.below(31);
+    int kind = finishing ? 28 : (int)rng.below(34);
+    if (kind >= 31) kind = kind == 31 ? 6 : (kind == 32 ? 27 : 23);   // assign / copy-assign / reserve get extra weight
+    // after an operation that sets the size or the buffers directly, often grow across the next
+    // bucket boundaries right away (the allocate-ahead bookkeeping must still be in step)
+    bool forced = false;
+    if (!finishing && forceGrow > 0) { kind = forceGrow == 1 ? 8 : 11; forced = true; }
     auto pick = [&]() -> int { if (objs.empty()) return -1; auto itr = objs.begin(); std::advance(itr, rng.below(objs.size())); return itr->first; };
     int a = pick(), b = pick();
+    if (forced && objs.count(forceTarget)) a = forceTarget;
     int x = 1 + (int)rng.below(90);
     int n = (int)rng.below(11);
     if (sizeof(Tracked) < 256 && rng.below(4) == 0) n = (int)rng.below(90);   // cross the 32-element first buckets
+    if (!forced && a >= 0 && (kind == 6 || kind == 23) && rng.below(2) == 0) {
+      // sizes strictly inside the second bucket, where the allocate-ahead strategies differ
+      size_t F = objs[a].p->firstBucketLen_;
+      if (F <= 64) n = (int)(F + (F > 1 ? 1 + rng.below(F - 1) : 0));
+    }
+    if (forced) {
+      if (forceGrow == 1) { if (--forceLeft == 0) forceGrow = 0; }
+      else { n = (int)forceLeft; forceGrow = 0; }
+    }
     std::vector<Tracked> xs; std::string xss;
     int xn = (int)rng.below(6);
     for (int i = 0; i < xn; ++i) { int v = 1 + (int)rng.below(90); xs.emplace_back(v); xss += " " + std::to_string(v); }
     char req[200];
     int dstId = -1; long pos = -1;
     std::snprintf(gLast, sizeof gLast, "traits=%s ops=%s", traitName, hist.substr(hist.size() > 500 ? hist.size() - 500 : 0).c_str());
-    alarm(20);
+    alarm(8);
     auto mk = [&](CV* p, RV* r) { Slot& s = objs[next]; s.p.reset(p); s.ref.reset(r); dstId = next++; };
     if (kind == 0) { std::snprintf(req, sizeof req, "mk"); mk(new CV(), new RV()); }
     else if (kind == 1) { std::snprintf(req, sizeof req, "mkSize %d", n); mk(new CV((size_t)n), new RV((size_t)n)); }
@@ -133,13 +255,14 @@ static void sequence(vh::SplitMix& rng, int maxOps, long long it, const char* tr
                    auto itr = RA.erase(RA.begin() + idx, RA.begin() + j); if (pos != itr - RA.begin()) { bad = true; badAt = std::string(req) + " returned position differs from std::vector"; } } break;
         case 21: std::snprintf(req, sizeof req, "resize %d %d", a, n); A.resize(n); RA.resize(n); break;
         case 22: std::snprintf(req, sizeof req, "resizeVal %d %d %d", a, n, x); A.resize(n, Tracked(x)); RA.resize(n, Tracked(x)); break;
-        case 23: std::snprintf(req, sizeof req, "reserve %d %d", a, 4 * n); A.reserve(4 * n); RA.reserve(4 * n); if (A.capacity() < (size_t)(4 * n)) { bad = true; badAt = req; } break;
+        case 23: { int rv = rng.below(2) ? 4 * n : n; std::snprintf(req, sizeof req, "reserve %d %d", a, rv); A.reserve(rv); RA.reserve(rv); if (A.capacity() < (size_t)rv) { bad = true; badAt = req; } } break;
         case 24: if (sz == 0) continue; std::snprintf(req, sizeof req, "popBack %d", a); A.pop_back(); RA.pop_back(); break;
         case 25: std::snprintf(req, sizeof req, "clear %d", a); A.clear(); RA.clear(); break;
         case 26: std::snprintf(req, sizeof req, "shrinkToFit %d", a); A.shrink_to_fit(); RA.shrink_to_fit(); break;
         case 27: std::snprintf(req, sizeof req, "copyAssign %d %d", a, b); A = *objs[b].p; RA = *objs[b].ref; break;
         case 28: std::snprintf(req, sizeof req, "destroy %d", a); objs.erase(a);
-                 std::printf("Q convec %s => 0 -1 %ld\n", req, implLive() - (long)xs.size()); hist += std::string(req) + ";"; continue;
+                 std::printf("Q convec %s => 0 -1 %ld\n", req, implLive() - (long)xs.size()); hist += std::string(req) + ";";
+                 std::printf("Q cvalloc %s => - %s\n", req, totals<CV, Tracked>().c_str()); continue;
         case 29: if (a == b) continue; if (rng.coin()) { std::snprintf(req, sizeof req, "moveAssign %d %d", a, b); A = std::move(*objs[b].p); RA = std::move(*objs[b].ref); objs[b].ref->clear(); }
                  else { std::snprintf(req, sizeof req, "swap %d %d", a, b); A.swap(*objs[b].p); RA.swap(*objs[b].ref); } break;
         default: std::snprintf(req, sizeof req, "cmp %d %d", a, b);
@@ -155,12 +278,30 @@ static void sequence(vh::SplitMix& rng, int maxOps, long long it, const char* tr
     std::string got;
     for (size_t i = 0; i < d.size(); ++i) got += " " + std::to_string(d[i].v);
     std::printf("Q convec %s => %zu %ld %ld%s\n", req, d.size(), pos, implLive() - (long)xs.size(), got.c_str());
+    {
+      bool sb = false;
+      std::string ob = observe<CV, Tracked>(d, sb);
+      std::printf("Q cvalloc %s => %s %s\n", req, ob.c_str(), totals<CV, Tracked>().c_str());
+      if (sb && !storageBad) { storageBad = true; storageAt = req; }
+      bool sets = (kind >= 4 && kind <= 7) || kind == 21 || kind == 22 || kind == 23 || kind == 25 || kind == 26 || kind == 27 || kind == 29 || kind == 19 || kind == 20 || kind == 24;
+      bool assigns = kind == 6 || kind == 7 || kind == 27;
+      if (!forced && sets && rng.below(4) < (assigns ? 3u : 2u) && d.size() < 700) {
+        // distance to the next bucket boundary, plus one more bucket half of the time
+        size_t F = d.firstBucketLen_, sz = d.size(), bound = F;
+        while (bound <= sz) bound *= 2;
+        size_t need = bound - sz + 1 + (rng.below(2) ? bound / 2 + rng.below(bound) : 0);
+        if (need <= 200) { forceTarget = dstId; forceLeft = need; forceGrow = (need <= 12 && rng.below(2)) ? 1 : 2; }
+      }
+    }
     bool localBad = false;
     if (d.size() != r.size() || d.empty() != r.empty() || d.capacity() < d.size()) localBad = true;
     checkIterators(d, r, localBad, rng);
     if (localBad && !bad) { bad = true; badAt = req; }
   }
   ++cases;
+  if (storageBad) std::printf("PFAIL ConcurrentVector bucket storage overlaps another bucket or lies outside its allocation | traits=%s at=%s ops=%s\n", traitName, storageAt.c_str(), hist.c_str());
+  if (hk::live.size() != liveBlocksBase || hk::badFrees)
+    std::printf("PFAIL ConcurrentVector buffer blocks leaked or freed twice | traits=%s liveBlocks=%ld badFrees=%lld ops=%s\n", traitName, (long)hk::live.size() - (long)liveBlocksBase, hk::badFrees, hist.c_str());
   if (bad) std::printf("PFAIL ConcurrentVector differs from std::vector (contents, size, position or iterators) | traits=%s at=%s ops=%s\n", traitName, badAt.c_str(), hist.c_str());
   if (vh::trackStats().live != base)
     std::printf("PFAIL ConcurrentVector element lifetimes unbalanced | traits=%s live=%ld ops=%s\n", traitName, vh::trackStats().live - base, hist.c_str());
@@ -171,7 +312,8 @@ int main(int argc, char** argv) {
   uint64_t seed = vh::argInt(argc, argv, 1, 1);
   long long S = vh::argInt(argc, argv, 2, 300);
   int maxOps = (int)vh::argInt(argc, argv, 3, 16);
-  vh::SplitMix rng(seed);
+  // consecutive seeds must not give shifted copies of one stream (SplitMix's state is seed·γ + c)
+  vh::SplitMix rng((seed ^ 0xD1B54A32D192ED03ull) * 0xAEF17502108EF2D9ull + (seed << 32));
   signal(SIGALRM, onAlarm);
   // index math: bucketAndSubIndex for several first-bucket sizes
   {
@@ -191,7 +333,12 @@ int main(int argc, char** argv) {
     for (int k = 0; k < 300; ++k) probe(v64, rng.next() >> (20 + rng.below(30)));
   }
   for (long long it = 0; it < S; ++it) {
-    switch (it % 5) {
+    switch (it % 10) {
+      case 5: sequence<dispenso::ConcurrentVector<MidTracked, TraitsA>, MidTracked>(rng, maxOps, it, "A/mid"); break;
+      case 6: sequence<dispenso::ConcurrentVector<MidTracked, TraitsB>, MidTracked>(rng, maxOps, it, "B/mid"); break;
+      case 7: sequence<dispenso::ConcurrentVector<Tracked, TraitsB>, Tracked>(rng, maxOps, it, "B"); break;
+      case 8: sequence<dispenso::ConcurrentVector<MidTracked, TraitsC>, MidTracked>(rng, maxOps, it, "C/mid"); break;
+      case 9: sequence<dispenso::ConcurrentVector<MidTracked>, MidTracked>(rng, maxOps, it, "default/mid"); break;
       case 4: sequence<dispenso::ConcurrentVector<Tracked>, Tracked>(rng, maxOps, it, "default"); break;
       case 0: sequence<dispenso::ConcurrentVector<BigTracked>, BigTracked>(rng, maxOps, it, "default/big"); break;
       case 1: sequence<dispenso::ConcurrentVector<BigTracked, TraitsA>, BigTracked>(rng, maxOps, it, "A/big"); break;
